@@ -43,6 +43,25 @@ fn compiler_chunk(value_text: &str) -> Result<String, String> {
     Ok(args[0].item.to_alias_str_chunk())
 }
 
+fn compiler_key(args_text: &str, linked: bool) -> Result<String, String> {
+    use isograph_lang_types::ArgumentKeyAndValue;
+    let rel: RelativePathToSourceFile = "src/a.ts".intern().into();
+    let ts = TextSource { relative_path_to_source_file: rel, span: None };
+    let lit = format!("field Query.x {{\n  items({args_text})\n}}");
+    let r = parse_iso_literal(lit.clone(), rel, Some("x".to_string()), ts).map_err(|d| format!("{} ({lit})", d.0.message))?;
+    let IsoLiteralExtractionResult::ClientFieldDeclaration(decl) = r else { return Err("not a field".into()) };
+    let sel = &decl.item.selection_set.item.selections[0].item;
+    let args = match sel { SelectionType::Scalar(s) => &s.arguments, SelectionType::Object(o) => &o.arguments };
+    let arguments: Vec<ArgumentKeyAndValue> = args.iter().map(|a| a.item.into_key_and_value()).collect();
+    let name: common_lang_types::SelectableName = "items".intern().into();
+    Ok(if linked {
+        isograph_schema::MergedLinkedFieldSelection { name, arguments, is_fallible: false, selection_map: std::collections::BTreeMap::new(),
+            concrete_target_entity_name: isograph_schema::ConcreteTargetEntityName::Abstract }.normalization_alias().unwrap_or_else(|| name.to_string())
+    } else {
+        isograph_schema::MergedScalarFieldSelection { name, arguments, is_fallible: false }.normalization_alias().unwrap_or_else(|| name.to_string())
+    })
+}
+
 fn scalars() -> Vec<V> {
     vec![V::Int(10), V::Int(-2), V::Bool(true), V::Null, V::Str("abc"), V::Str("x_1"), V::Var("v")]
 }
@@ -87,5 +106,30 @@ fn main() {
             Err(m) => { println!("DIFFERENT: f(arg: {}) is rejected by the parser: {m}", text(v)); std::process::exit(1); }
         }
     }
-    println!("values={n}: the compiler's key chunk equals the runtime's for every value");
+    // ARGUMENT LISTS: the whole response key of a selection with up to three arguments (variables
+    // and literals in every order), parsed by the real parser and keyed by the real
+    // MergedScalarFieldSelection / MergedLinkedFieldSelection::normalization_alias, against the
+    // runtime's getNetworkResponseKey on the normalization AST (arguments in written order)
+    let pool: Vec<(&str, V)> = vec![("after", V::Var("cursor")), ("first", V::Int(10)), ("flag", V::Bool(true)), ("q", V::Var("q")), ("name", V::Str("a b"))];
+    let mut lists = 0;
+    for len in 1..=3usize {
+        for code in 0..pool.len().pow(len as u32) {
+            let mut c = code;
+            let idx: Vec<usize> = (0..len).map(|_| { let i = c % pool.len(); c /= pool.len(); i }).collect();
+            let mut sorted = idx.clone(); sorted.sort(); sorted.dedup();
+            if sorted.len() != idx.len() { continue; }   // argument names are unique
+            let args: Vec<&(&str, V)> = idx.iter().map(|i| &pool[*i]).collect();
+            let args_text = args.iter().map(|(k, v)| format!("{k}: {}", text(v))).collect::<Vec<_>>().join(", ");
+            let want = format!("items{}", args.iter().map(|(k, v)| format!("____{k}___{}", runtime_chunk(v))).collect::<String>());
+            for linked in [false, true] {
+                match compiler_key(&args_text, linked) {
+                    Ok(got) if got == want => {}
+                    Ok(got) => { println!("DIFFERENT: for the {} selection items({args_text}) the compiler's response key is {got:?}, the runtime computes {want:?}", if linked { "linked" } else { "scalar" }); std::process::exit(1); }
+                    Err(m) => { println!("DIFFERENT: items({args_text}) is rejected by the parser: {m}"); std::process::exit(1); }
+                }
+                lists += 1;
+            }
+        }
+    }
+    println!("values={n} argument lists={lists}: the compiler's key equals the runtime's for every value and every argument order");
 }
